@@ -131,6 +131,20 @@ declared local of type `Py.Err` and receives the exception.  Not combined with `
 
 `bool(e)` is the truth value of `e` (as in a condition).
 
+Constructs added for the import side of term parameters (`Term._parse`, `configure`, `Op.as_identifier`; profiles
+`termparse.py`):
+
+* a list comprehension with `if` clauses (pure conditions): the iterable is filtered first (`List.filter`), then mapped;
+  a comprehension whose *element can raise* (`[to_float(x) for x in words]`) is `List.mapM` in `Py.M`: the elements are
+  evaluated left to right and the first exception ends the comprehension; with `iter_view` for `String` a string is
+  iterated by its characters;
+* `t1, …, tn = e` for a list-valued `e` whose targets are declared locals or attributes kept as locals (`self.left` is the
+  local `self_left`): `e` is evaluated, then unpacked - `ValueError` unless it has exactly `n` elements - and the targets
+  are assigned (tried only when the right-hand side is not a translation-time constant, so older profiles are unaffected);
+* `del l[-1]` on a list local is `l.pop()` without the value; `n % k` for a natural `n` and a positive literal `k`;
+* `a or b` for two pure strings is the string `a` unless it is empty, else `b` (its truth value is `a != "" or b != ""`);
+* in an external pattern a constant matches a constant of the *same type* only (`1.0` is not `1` and not `True`).
+
 Anything outside the subset raises `Untranslatable` - the tie is then reported as broken (never silently skipped).
 """
 from __future__ import annotations
